@@ -90,9 +90,10 @@ func mentions_(v paths.VPath, t *paths.Term, base string, out map[string]bool, d
 		}
 		if s.Op == "alloc" {
 			if a, ok := s.Val.(*ssa.Alloc); ok {
-				v.Instrs(func(in ssa.Instruction) {
-					if st, ok := in.(*ssa.Store); ok && st.Addr == ssa.Value(a) {
-						mentions_(v, v.Term(st.Val), base, out, depth+1)
+				// the cell is named per activation: a helper spliced in twice has two distinct cells
+				v.InstrsIn(func(in ssa.Instruction, c *paths.Ctx) {
+					if st, ok := in.(*ssa.Store); ok && st.Addr == ssa.Value(a) && c.Term(st.Addr).String() == s.String() {
+						mentions_(v, c.Term(st.Val), base, out, depth+1)
 					}
 				})
 			}
@@ -347,7 +348,7 @@ func validatorSymmetry(x *Ctx) {
 			return n == "pkg/policy/limits.ValidateIntegerBoundsIPLD" && strings.Contains(ct.Args[0].String(), "recv.policy")
 		}), 1, "the constructor rejects policy integers beyond +/-(2^53-1) like policy.FromIPLD")
 		x.noPath("C07.R5", "policy-encodable", val, paths.WantSuccess, paths.CallFails(func(n string, ct *paths.Term) bool {
-			return n == "(pkg/policy.Policy).ToIPLD" && ct.Args[0].String() == "recv.policy"
+			return ct.String() == x.call("(pkg/policy.Policy).ToIPLD", "recv.policy")
 		}), 1, "the constructor rejects a policy that cannot be encoded")
 	}
 	if val := x.fn("C07.R5", "(*token/invocation.Token).validate"); val != nil {
@@ -357,9 +358,9 @@ func validatorSymmetry(x *Ctx) {
 	}
 	// Args.Validate covers every value
 	if f := x.fn("C07.R5", "(*pkg/args.Args).Validate"); f != nil {
-		fi := paths.Info(f)
 		ok := false
-		for _, l := range fi.Loops {
+		for _, la := range loopsIn(f) {
+			l := la.L
 			lps, _ := x.E.LatchPaths(f, l, paths.CallFails(callee("pkg/policy/limits.ValidateIntegerBoundsIPLD")), 0)
 			all, _ := x.E.LatchPaths(f, l, nil, 0)
 			if len(all) > 0 && len(lps) == 0 {
